@@ -30,7 +30,6 @@ LEVEL = 'model_checking'
 HASHSEEDS = {'quick': 1, 'thorough': 1}
 
 PORT = 3333
-MAX_NOTE = 'MAX_BLOB_SIZE = 2 MiB'
 
 
 # ================================================================================================
@@ -76,16 +75,20 @@ def kinds_for(content):
 
 
 def scripts_for(content, chunking='all'):
-    """List of (kind, chunks) - chunking 'all' = every composition; 'ws' = {whole, all single bytes};
-    'w' = whole only; 'ws-' = as 'ws' except that the over-long-by-n script comes whole and as [content, content] (first copy
-    ends on a chunk boundary) instead of 2n single bytes."""
+    """List of (kind, chunks).  chunking:
+    'all'  every composition of the script's bytes;
+    'ws'   {whole, all single bytes};
+    'w'    whole only;
+    'ws-'  as 'ws', except that the over-long-by-n script comes whole and as [content, content] (the first
+           copy ends on a chunk boundary) instead of 2n single bytes;
+    'all-' every composition, except for the over-long-by-n script, which is cut as in 'ws-'."""
     out = []
     n = len(content)
     for kind, data in kinds_for(content):
         comps = compositions(data)
         if chunking == 'w':
             comps = [comps[0]]
-        elif chunking == 'ws-' and kind == 'longn':
+        elif chunking in ('ws-', 'all-') and kind == 'longn':
             comps = [comps[0], (data[:n], data[n:])]
         elif chunking in ('ws', 'ws-'):
             comps = [comps[0]] if len(comps) == 1 else [comps[0], comps[-1]]
@@ -635,6 +638,10 @@ def explore(case, blob_dir, res, visited, use_hash=True, collect=None, record_st
                         res.tally('outside_oracle:executions_with_exception_raised_to_writers_own_caller')
                         for _, name in ex.caller_errors:
                             res.tally(f'outside_oracle:caller_saw_{name}')
+                    for ctx_ in ex.loop.exc_contexts:
+                        # an exception that escaped a loop callback is logged by asyncio, nothing more; its
+                        # consequences (if any) are what the oracle judges
+                        res.tally('outside_oracle:loop_exception_handler:' + type(ctx_.get('exception')).__name__)
                     if any(ex.hit) and len(ex.callbacks) != 1:
                         res.tally('interpretation_only:verified_but_completion_callback_not_fired_once')
                     if any(ex.hit) and any(w is not None and not w.finished.done() for w in ex.ws):
@@ -656,6 +663,7 @@ def explore(case, blob_dir, res, visited, use_hash=True, collect=None, record_st
             ex.close()
         if nviol >= 25:          # enough counterexamples for this case; the rest of its space is skipped
             res.count('cases_cut_short_after_25_violations')
+            res.count('capped')
             break
 
 
@@ -760,14 +768,14 @@ def families(tier):
             F.append(fam('triples-n1', cls, 1, 3, 'all', order='ordered', batch=128))
             F.append(fam('pairs-n3-all', cls, 3, 2, 'all', order='ordered', batch=256))
             F.append(fam('pairs-n4-all', cls, 4, 2, 'all', batch=200, big=True))
-            F.append(fam('triples-n3-all', cls, 3, 3, 'all', batch=100, big=True))
+            F.append(fam('triples-n3-all-', cls, 3, 3, 'all-', batch=60, big=True))
             F.append(fam('triples-n4-ws-', cls, 4, 3, 'ws-', batch=20, big=True))
             F.append(fam('unknown-pairs-n1', cls, 1, 2, 'all', mode='unknown', batch=150))
             F.append(fam('unknown-triples-n1', cls, 1, 3, 'all', mode='unknown', batch=100))
             F.append(fam('unknown-pairs-n3-all', cls, 3, 2, 'all', mode='unknown', batch=300, big=True))
             F.append(fam('unknown-triples-n3-w', cls, 3, 3, 'w', mode='unknown', batch=100, big=True))
             F.append(fam('late-pairs-n3-all', cls, 3, 2, 'all', mode='late', batch=100))
-            F.append(fam('late-triples-n3-ws-', cls, 3, 3, 'ws-', mode='late', batch=10, big=True))
+            F.append(fam('late-triples-n3-w', cls, 3, 3, 'w', mode='late', batch=10))
     return F
 
 
@@ -779,7 +787,7 @@ def xcheck_families(tier):
         # maxchunks bounds the total number of chunks of a case: the stateless enumeration grows like the
         # multinomial coefficient of the chunk counts (two 6-chunk writers alone are 142 800 executions)
         F.append(fam('x-pairs-n3-ws', cls, 3, 2, 'ws', batch=20, maxchunks=5 if q else 7))
-        F.append(fam('x-triples-n1', cls, 1, 3, 'all', batch=20, maxchunks=4 if q else 6))
+        F.append(fam('x-triples-n1', cls, 1, 3, 'all', batch=20 if q else 4, maxchunks=4 if q else 6))
         F.append(fam('x-unknown-pairs-n1', cls, 1, 2, 'all', mode='unknown', batch=60, maxchunks=3 if q else 4))
         if not q:
             F.append(fam('x-late-pairs-n3-ws', cls, 3, 2, 'ws', mode='late', batch=20, maxchunks=4))
@@ -1111,7 +1119,6 @@ def run(ctx):
             items.append(('xcheck', f, lo, min(nc, lo + f['batch']), False))
     items += [('single', i) for i in range(len(SINGLES))]
     # big items first for load balance (the set of items is fixed; only their dispatch order changes)
-    order = {'triples': 0, 'late-triples': 0, 'unknown-triples': 0}
     items.sort(key=lambda it: 0 if (it[0] == 'batch' and it[1]['k'] == 3) else 1 if it[0] == 'single' else 2 if it[0] == 'xcheck' else 3)
     ctx.pmap(work, items)
     res = ctx.res
@@ -1124,18 +1131,27 @@ def run(ctx):
     for f in fams:
         spaces[f"{f['name']}/{f['cls']}"] = count_cases(f)
     ctx.meta.update(
-        rule=('case = blob class x content length n x family (known length | unknown length with one set_length(L_i), '
-              'L_i in {n,n-1,n+1}, per writer before its first write | late open: get_blob_writer is an event too) x '
-              'tuple of 1..3 writer scripts; script = kind (correct, each byte flipped by one bit, every truncation incl. '
-              'empty, over-long by 1, over-long by n, unrelated) x chunking (every composition, or {whole, single bytes} '
-              'where stated in bounds). For every case ALL interleavings of O(i)/S(i)/W(i)/STEP/JOB_RUN/JOB_DONE events are '
-              'explored (DFS, re-execution on fresh real objects, canonical-state hashing cross-checked against stateless '
-              'enumeration); safety in every state, liveness in every quiescent state. Pairs are enumerated as ordered '
-              'tuples, triples as multisets (writers created in sorted order). evaluations = cases; non-trivial = distinct '
-              'writer-script multisets with >= 2 writers (all their overlaps are explored) or a misbehaving writer or a '
-              'set_length event; plus the 2 MiB boundary singles.'),
+        rule=('case = blob class (BlobFile | BlobBuffer) x content length n x family (known length | unknown length with '
+              'one set_length(L_i), L_i in {n,n-1,n+1}, per writer before its first write | late open: get_blob_writer is '
+              'an event too) x tuple of 1..3 writer scripts; script = kind (correct, each byte flipped by one bit, every '
+              'truncation incl. the empty one, over-long by 1, over-long by n, unrelated) x chunking (per family, see '
+              'bounds.chunking_legend). For every case ALL interleavings of O(i)/S(i)/W(i)/STEP/JOB_RUN/JOB_DONE events '
+              'are explored (DFS over event prefixes, every node re-executed on fresh real objects, canonical-state '
+              'hashing shared inside a batch of consecutive cases and cross-checked against stateless enumeration on the '
+              'x-* sub-spaces); safety invariant in every state, liveness in every quiescent state. Families marked '
+              'ordered enumerate ordered writer tuples, the others multisets (writers created in sorted script order). '
+              'evaluations = cases explored; non-trivial = distinct writer-script multisets with >= 2 writers (all their '
+              'overlaps are explored) or a misbehaving writer or a set_length event, plus the boundary singles; '
+              'states = distinct canonical states (thorough: exact distinct count for the small families + sum over '
+              'batches of per-batch distinct states for the families whose digests are not shipped to the parent); '
+              'executions = event sequences run to quiescence (revisits pruned by state hashing are counted separately).'),
         exhaustive=True,
         bounds={'tier': tier, 'families': spaces, 'cases': total_cases, 'max_writers': 3,
+                'ordered_families': sorted({f['name'] for f in fams if f['order'] == 'ordered'}),
+                'chunking_legend': {'all': 'every composition of every script', 'ws': 'whole and all-single-bytes',
+                                    'w': 'whole only', 'ws-': 'ws, but over-long-by-n as whole and [content|content]',
+                                    'all-': 'every composition, but over-long-by-n as whole and [content|content]',
+                                    'single-*/pairs-n1/triples-n1': 'all'},
                 'content_lengths': [1, 3, 4], 'boundary_singles': len(SINGLES),
                 'stateless_crosscheck_families': sorted({f['name'] for f in xf})},
         bound_completed='all families listed in bounds fully enumerated, every interleaving',
